@@ -296,7 +296,17 @@ func (s *seqCase) doStaleEOFAdvance() {
 	if pendingBefore != 0 {
 		return // the head segment was exhausted, the append went elsewhere; the general checks apply
 	}
-	b, err := s.q.Current()
+	// x is the only pending block; empty segments in front of it are skipped the
+	// usual way (Advance on EOF)
+	var b []byte
+	var err error
+	for rounds := 0; rounds <= s.nseg()+1; rounds++ {
+		b, err = s.q.Current()
+		if err != io.EOF {
+			break
+		}
+		s.advanceAtEOF()
+	}
 	if err == nil && bytes.Equal(b, x.data) {
 		s.ctx = "current"
 		return
@@ -509,6 +519,12 @@ func runSeq(caseID string, seed int64, root string) {
 			s.doResize()
 		default:
 			s.doPurge()
+			if s.ctx == "purge-of-all-segments" && !s.stop && g.Intn(8) > 0 {
+				// the queue refuses every append from here on (stale tail, listed
+				// finding): record it once, then restart to go on exploring
+				s.checkEmpty()
+				s.doReopen()
+			}
 		}
 		s.checkEmpty()
 	}
